@@ -523,6 +523,10 @@ impl Locale {
             [key] => self.keys.get(key),
             [key, path @ ..] => {
                 let value = self.keys.get(key)?;
+                // the whole group is explicitly defaulted (`"group": null`): so is everything below it.
+                if matches!(value, ParsedValue::Default) {
+                    return Some(value);
+                }
                 let ParsedValue::Subkeys(subkeys) = value else {
                     return None;
                 };
